@@ -63,15 +63,37 @@ func (dt *depTracker) addDep(s string) {
 	dt.deps = append(dt.deps, s)
 }
 
+// declUnits returns the top-level declarations of a file, with each spec of a
+// const or var group as a declaration of its own: Go lets the specs of a group
+// refer to each other, and to those of other groups, in any order.
+func declUnits(f *ast.File) []ast.Decl {
+	var units []ast.Decl
+	for _, d := range f.Decls {
+		gd, ok := d.(*ast.GenDecl)
+		if !ok || (gd.Tok != token.CONST && gd.Tok != token.VAR) || len(gd.Specs) <= 1 {
+			units = append(units, d)
+			continue
+		}
+		for _, spec := range gd.Specs {
+			one := *gd
+			one.Specs = []ast.Spec{spec}
+			units = append(units, &one)
+		}
+	}
+	return units
+}
+
 // Decls converts an entire package (possibly multiple files) to a list of decls
 func (ctx Ctx) Decls(fs ...NamedFile) (imports coq.ImportDecls, decls []coq.Decl, errs []error) {
 	declGroups := make(map[declId][]coq.Decl)
 	declDeps := make(map[declId][]string)
 	nameDecls := make(map[string]declId)
 	generated := make(map[declId]bool)
+	units := make([][]ast.Decl, len(fs))
 
 	for fi, f := range fs {
-		for di, d := range f.Ast.Decls {
+		units[fi] = declUnits(f.Ast)
+		for di, d := range units[fi] {
 			ctx.dep = &depTracker{}
 
 			id := declId{fi, di}
@@ -126,7 +148,7 @@ func (ctx Ctx) Decls(fs ...NamedFile) (imports coq.ImportDecls, decls []coq.Decl
 			decls = append(decls, coq.NewComment(f.Ast.Doc.Text()))
 		}
 		lastFile = fi
-		for di := range f.Ast.Decls {
+		for di := range units[fi] {
 			processDecl(declId{fi, di}, "")
 		}
 	}
